@@ -322,6 +322,52 @@ def _load_trace(rng, workdir):
     return [ev]
 
 
+def _logged(lib):
+    out = []
+    for g in lib:
+        try:
+            out.append({'key': codes(str(g)), 'rec': project(lib[g]['thermochem'])})
+        except ValueError:
+            out.append({'key': codes(str(g)), 'rec': {'h': [99], 's': [], 'cp': [], 'rng': []}})
+    return out
+
+
+def _lib_trace(rng, workdir):
+    """a loaded library and a few others merged into it with Update, the same one possibly more than once,
+    with and without overwriting"""
+    groups = rng.sample(sorted(SPELLINGS), rng.randint(2, 3))
+    nlibs = rng.randint(2, 3)
+    files = []
+    for k in range(nlibs + 1):
+        f = {'groups': [], 'includes': []}
+        for g in groups:
+            if rng.random() < .75:
+                f['groups'].append({'name': codes(rng.choice(SPELLINGS[g])), 'rec': _rand_rec(rng)})
+        rng.shuffle(f['groups'])
+        files.append(f)
+    libs = []
+    for k, f in enumerate(files):
+        d = tempfile.mkdtemp(prefix='lib%d_' % k, dir=workdir)
+        with open(os.path.join(d, 'scheme.yaml'), 'w') as fh:
+            fh.write('patterns: []\n')
+        _write_tree(d, f, [0])
+        kind, lib, _ = call(GroupLibrary.Load, os.path.join(d, 'library.yaml'))
+        if kind == 'error':
+            raise MachineryError('scratch library does not load: %r' % lib)
+        libs.append(lib)
+    base = libs[0]
+    evs = [{'op': 'libinit', 'tree': files[0], 'lib': _logged(base)}]
+    for _ in range(rng.randint(2, 5)):
+        k = rng.randint(1, nlibs)
+        ow = rng.random() < .5
+        kind, v, _ = call(base.Update, libs[k], ow)
+        evs.append({'op': 'libupdate', 'tree': files[k], 'ow': ow, 'ok': kind != 'error',
+                    'err': type(v).__name__ if kind == 'error' else '', 'lib': _logged(base), '_k': k})
+        if kind == 'error':
+            break
+    return evs
+
+
 def _show_tree(t, ind=0):
     s = ' ' * ind + 'file{' + ', '.join('%s: %s' % (uncodes(g['name']), show(g['rec']))
                                         for g in t['groups']) + '}'
@@ -345,6 +391,18 @@ def _validate(ctx, traces, label):
                                           for x in ev['lib'])) if ev['ok'] else ev['err'],
                        b['exp']))
             key = 'load:' + _show_tree(ev['tree'])
+        elif ev['op'] in ('libinit', 'libupdate'):
+            hist = ' ; '.join('Load(lib0)' if e['op'] == 'libinit' else 'Update(lib%d%s)' % (e['_k'], ', overwrite=True' if e['ow'] else '')
+                              for e in tr[:b['i']])
+            files = {0: tr[0]['tree']}
+            for e in tr[1:b['i']]:
+                files[e['_k']] = e['tree']
+            what = ('%s: %s -> %s %s ; spec expects %s\n%s'
+                    % (label, hist, 'ok' if ev.get('ok', True) else ev.get('err'),
+                       '; '.join('%s: %s' % (uncodes(x['key']), show(x['rec']) if 99 not in x['rec']['h'] else 'non-token value')
+                                 for x in ev['lib']), b['exp'],
+                       '\n'.join('lib%d = %s' % (k, _show_tree(t)) for k, t in sorted(files.items()))))
+            key = 'libupdate:' + hist + '|' + '|'.join(_show_tree(t) for _, t in sorted(files.items()))
         else:
             prev = [e for e in tr[:b['i'] - 1]][-1]
             pstate = prev.get('state') or prev.get('rec')
@@ -383,6 +441,7 @@ def run(ctx):
     traces = [_corr_trace(rng, rng.randint(2, 8)) for _ in range(ntr)]
     workdir = tempfile.mkdtemp(prefix='trees_', dir=ctx.scratch)
     traces += [_load_trace(rng, workdir) for _ in range(nload)]
+    traces += [_lib_trace(rng, workdir) for _ in range(400 if thorough else 80)]
     for tr in traces:
         for ev in tr:
             ctx.count()
